@@ -53,6 +53,24 @@ def digest(fn: ast.AST) -> str:
     return hashlib.sha1(ast.dump(f2, annotate_fields=False, include_attributes=False).encode()).hexdigest()[:16]
 
 
+def known_constants() -> Set[str]:
+    p = os.path.join(_HERE, "known_functions.json")
+    try:
+        with open(p) as fh:
+            return set(json.load(fh).get("constants", []))
+    except (OSError, ValueError):
+        return set()
+
+
+def known_backing_reads() -> Set[str]:
+    p = os.path.join(_HERE, "known_functions.json")
+    try:
+        with open(p) as fh:
+            return set(json.load(fh).get("backing_reads", []))
+    except (OSError, ValueError):
+        return set()
+
+
 def known_digests() -> Dict[str, List[str]]:
     p = os.path.join(_HERE, "known_functions.json")
     try:
